@@ -144,7 +144,7 @@ def base_cfg(strategy, threads=1, **kw):
     return c
 
 
-def symmetric_graph(rng, gid):
+def symmetric_graph(rng, gid, eventually=False):
     """F5: k identical processes with m local states each; a state is the vector of local states; a step moves one
     process along the shared local transition table, optionally guarded by a predicate on the multiset of the others.
     Transitions, boundary and properties are invariant under permutations of the processes; rep = sorted vector."""
@@ -199,8 +199,8 @@ def symmetric_graph(rng, gid):
     inb[init[0] - 1] = True
     props = []
     for i in range(rng.randint(1, 3)):
-        kind = rng.choice(["always", "sometimes"])
-        props.append(dict(kind=kind, name="p%d" % (i + 1), sat=sym_set(rng.choice([0.3, 0.6, 0.9]))))
+        kind = rng.choice(["always", "sometimes"] + (["eventually", "eventually"] if eventually else []))
+        props.append(dict(kind=kind, name="p%d" % (i + 1), sat=sym_set(rng.choice([0.1, 0.3, 0.6, 0.9]))))
     if rng.random() < 0.7:
         props.append(dict(kind="always", name="keep", sat=list(range(1, n + 1))))
     return dict(id=gid, family="table", n=n, init=init, succ=succ, inb=inb, props=props, params=[], poison=0, rep=rep)
